@@ -213,3 +213,11 @@ package dawn
 //@ (assert (= evalReal (or always (not depsUTD) (not utd) rerun)))   ; the same callsites, real run
 //@ (assert (not (= evalDry evalReal)))
 //@ >>>
+
+// ---------------------------------------------------------------- C16/C01: environment comparison
+// A function target is reported up to date only if its recorded and current environments are equal.
+//@ func (*dawn.function).diffEnv
+//@   requires f != nil
+//@   ensures  uptodate-only-if-equal: result.0 ==> (result.3 == nil && steq(f.oldEnv, f.newEnv))
+//@   ensures  reason-or-error: (!result.0 && result.3 == nil) ==> result.1 != ""
+//@   modifies heap, dkeys, dvals, it_seen
